@@ -1,7 +1,7 @@
 import CnvVerif.Driver.Json
 import CnvVerif.Model.Genes
 open Lean
-namespace CnvVerif.Drv
+namespace CnvVerif.Drv.Genes
 open CnvVerif.Genes
 
 /-- [label, chrom, s, e, gene, log2, depth, weight] -/
@@ -289,4 +289,4 @@ def handleGenes (op : String) (inp : Json) (impl : Option Json) : R (Option Json
     pure (some (obj [("out", arrJ (out.map brkJ)), ("spec", spec)]))
   | _ => pure none
 
-end CnvVerif.Drv
+end CnvVerif.Drv.Genes
